@@ -30,17 +30,15 @@ Proof. exact C18.Proofs.insert_all_sound. Qed.
 Theorem rb_ok_exact : forall (A : Type) (t : tree A), rb_ok A t = true <-> rb_valid A t.
 Proof. exact C18.Proofs.rb_ok_iff. Qed.
 
-(* 4. the code as pinned (nodes created black, root never recoloured): three ascending insertions are not a valid tree *)
+(* 4. documented pre-fix witness (flags false/false = the code before fix f87d35e: nodes created black, root never
+      recoloured): three ascending insertions are not a valid tree *)
 Theorem rb_current_refuted : exists l : list Z, ~ rb_valid Z (insert_all Z Z.ltb false false l).
 Proof. exact C18.Proofs.rb_current_refuted. Qed.
-(* 5. the same two statements about the source as srcgen reads it NOW: valid as soon as both flags are set, refuted while
-      nodes are created black *)
-Theorem rb_as_coded_valid : rb_new_node_red = true -> rb_root_blackened = true ->
-  forall (A : Type) (lt : A -> A -> bool) l, rb_valid A (insert_all A lt rb_new_node_red rb_root_blackened l).
+(* 5. LIVE: redblack.Tree.Insert as srcgen reads it now (colour of the node literal, `t.Root.Red = false`) always yields a
+      valid red-black tree.  If either flag regresses this statement stops being provable. *)
+Theorem rb_as_coded_valid : forall (A : Type) (lt : A -> A -> bool) l,
+  rb_valid A (insert_all A lt rb_new_node_red rb_root_blackened l).
 Proof. exact C18.Proofs.rb_as_coded_valid. Qed.
-Theorem rb_as_coded_refuted : rb_new_node_red = false ->
-  exists l : list Z, ~ rb_valid Z (insert_all Z Z.ltb rb_new_node_red rb_root_blackened l).
-Proof. exact C18.Proofs.rb_as_coded_refuted. Qed.
 
 (* 6. the directory tree rebuilt with the repaired insertion under the MS-CFB name order passes the validator's tree
       conditions (15: order, 16: red-black) and contains exactly the given entries *)
@@ -92,12 +90,25 @@ Theorem cfb_check_sound : forall b, cfb_check b = true -> cfb_valid b.
 Proof. exact C18.Proofs.cfb_check_sound. Qed.
 
 (* ---------------------------------------------------------------- directory order *)
-(* 14. relic's lessDirEnt equals the MS-CFB order on caseless ASCII names, and differs outside that class *)
-Theorem relic_order_eq_cfb_on_caseless_ascii : forall a b,
-  forallb caseless_ascii a = true -> forallb caseless_ascii b = true -> relic_less a b = cfb_less a b.
+(* 14. relic's lessDirEnt (NameLength, then upper-cased code units with the toolchain's unicode.ToUpper table) IS the MS-CFB
+       sibling order on every pair of names whose code units lie in the agreement domain ... *)
+Theorem relic_order_eq_cfb : forall a b, zlen a < name_runes -> zlen b < name_runes ->
+  forallb unit_agrees a = true -> forallb unit_agrees b = true -> relic_less a b = cfb_less a b.
 Proof. exact C18.Proofs.relic_less_eq_cfb_less. Qed.
-Theorem relic_order_refuted : exists a b, relic_less a b <> cfb_less a b.
-Proof. exact C18.Proofs.relic_less_vs_cfb_refuted. Qed.
+(* ... and the domain is: all code units below 256, all surrogate halves, every code unit >= 256 that unicode.ToUpper leaves
+   alone (in particular the packed MSI names 0x3800..0x4840).  For cased letters above U+00FF the Coq transcription of the
+   MS-CFB order (upcase) is caseless; there Go's table is the reference and the harness compares the real comparator with it. *)
+Theorem agreement_domain :
+  (forall u, 0 <= u < 256 -> unit_agrees u = true) /\
+  (forall u, upper_unit_is_surrogate u = true -> unit_agrees u = true) /\
+  (forall u, 256 <= u -> unit_agrees u = (upper_unit u =? u)) /\
+  (forall u, 14336 <= u <= 18496 -> unit_agrees u = true).
+Proof.
+  exact (conj C18.Proofs.unit_agrees_below_256 (conj C18.Proofs.unit_agrees_surrogate
+        (conj C18.Proofs.unit_agrees_from_256 C18.Proofs.unit_agrees_msi_range))).
+Qed.
+Theorem relic_order_differs_outside_domain : exists a b, relic_less a b <> cfb_less a b.
+Proof. exact C18.Proofs.relic_less_vs_cfb_outside_domain. Qed.
 (* 15. the MS-CFB order is a strict order (what theorem 2 needs of the comparator) *)
 Theorem cfb_order_strict : (forall a, cfb_less a a = false) /\
   (forall a b c, cfb_less a b = true -> cfb_less b c = true -> cfb_less a c = true).
@@ -106,7 +117,9 @@ Proof. split; [exact C18.Proofs.cfb_less_irrefl | exact C18.Proofs.cfb_less_tran
 (* ---------------------------------------------------------------- non-vacuity *)
 Example repaired_tree_is_valid : rb_ok Z (insert_all Z Z.ltb true true [5; 3; 8; 1; 4; 7; 9; 2; 6; 0]) = true.
 Proof. vm_compute. reflexivity. Qed.
-Example current_tree_is_a_list : insert_all Z Z.ltb false false [0; 1; 2] = T Black E 0 (T Black E 1 (T Black E 2 E)).
+Example case_pair_now_ordered : relic_less [97] [66] = true /\ cfb_less [97] [66] = true.
+Proof. vm_compute. split; reflexivity. Qed.
+Example prefix_tree_was_a_list : insert_all Z Z.ltb false false [0; 1; 2] = T Black E 0 (T Black E 1 (T Black E 2 E)).
 Proof. vm_compute. reflexivity. Qed.
 Example alloc_example : make_free 512 3 [-3; 5; -1; -2; -1; -2] = ([2; 4; 6], [-3; 5; -1; -2; -1; -2] ++ repeat (-1) 128).
 Proof. vm_compute. reflexivity. Qed.
